@@ -4,6 +4,7 @@
 pub mod bfs;
 pub mod comps;
 pub mod conc;
+pub mod det;
 pub mod disp;
 pub mod hist;
 pub mod join;
